@@ -1176,7 +1176,7 @@ func TestVerifAlphUtil(t *testing.T) {
 	}
 	scale := 1
 	if os.Getenv("VERIF_TIER") == "thorough" {
-		scale = 25
+		scale = 100
 	}
 	f, err := os.Create(filepath.Join(out, "alphutil.cases"))
 	if err != nil {
